@@ -174,6 +174,9 @@ def _harvest():
             ("0.2.0", "snote(n15,[b,n],5,1:2,0/1,1/4,1.00000,3.00000,[s])-note(18,[b,x],2,72600.75,75380.25,26)."),
             # the older spelling of the attribute that names the performance file
             ("0.5.0", "info(midiFilename,'perf.mid')."), ("0.3.0", "info(midiFilename,'take2.mid')."),
+            # text values that contain the two characters which close a line, and brackets, before their end
+            ("1.0.0", "info(midiFileName,take(1).mid)."), ("1.0.0", "info(piece,Sonata (arr.). Part 2)."), ("0.5.0", "info(midiFileName,'take(1).mid')."),
+            ("0.3.0", "info(piece,'Sonata (arr.). Part 2')."), ("1.0.0", "info(composer,Mozart (W.A.))."),
             # quoted text values of the old versions with an apostrophe, a comma-free phrase, digits
             ("0.5.0", "info(piece,'L'isle joyeuse')."),
             ("0.3.0", "info(composer,'Claude Debussy')."),
